@@ -44,7 +44,7 @@ def Sim (cfg : Core.Cfg) (n : Nat) : Prop :=
   (∀ es, exprsOK es = true → ∀ (fr : Core.Frame) rfr vars st, fr.self = none → FrRel fr.env vars rfr →
     evalList n cfg rfr (cxs vars es) st = (crl (Core.evalList n cfg fr es st).1, (Core.evalList n cfg fr es st).2) ∧
     GoodL (Core.evalList n cfg fr es st).1) ∧
-  (∀ f args, lazyNatives.contains f = false → exprsOK args = true → ∀ (fr : Core.Frame) rfr vars tail st, fr.self = none → FrRel fr.env vars rfr →
+  (∀ f args, exprsOK args = true → ∀ (fr : Core.Frame) rfr vars tail st, fr.self = none → FrRel fr.env vars rfr →
     builtin n cfg rfr f (cxs vars args) tail st = (cr (Core.builtin n cfg fr f args tail st).1, (Core.builtin n cfg fr f args tail st).2) ∧
     Good (Core.builtin n cfg fr f args tail st).1)
 
@@ -52,7 +52,7 @@ theorem sim_zero (cfg : Core.Cfg) : Sim cfg 0 := by
   refine ⟨?_, ?_, ?_⟩
   · intro e _ fr rfr vars tail st _ _; simp [eval, Core.eval, cr, Good]
   · intro es _ fr rfr vars st _ _; simp [evalList, Core.evalList, crl, cr, GoodL, Good]
-  · intro f args _ _ fr rfr vars tail st _ _; simp [builtin, Core.builtin, cr, Good]
+  · intro f args _ fr rfr vars tail st _ _; simp [builtin, Core.builtin, cr, Good]
 
 /-- the list step, from the expression step at the same fuel -/
 theorem sim_list (cfg : Core.Cfg) (n : Nat) (h1 : Sim cfg n) :
@@ -160,8 +160,8 @@ theorem sim_eval (cfg : Core.Cfg) (n : Nat) (hn : Sim cfg n) (hprev : ∀ m, m <
       | stuck w => simp [cr, Good]
       | oof => simp [cr, Good]
   | call f args =>
-    simp only [exprOK, Bool.and_eq_true, Bool.not_eq_true'] at hok
-    obtain ⟨hlazy, hargs⟩ := hok
+    simp only [exprOK] at hok
+    have hargs := hok
     simp only [Core.eval, hs]
     have hf := hrel f
     cases hl : Core.lookup f fr.env with
@@ -172,7 +172,7 @@ theorem sim_eval (cfg : Core.Cfg) (n : Nat) (hn : Sim cfg n) (hprev : ∀ m, m <
       | zero => simp [builtinStage, Core.callNamed, cr, Good]
       | succ m =>
         simp only [builtinStage, Core.callNamed, frame_get fr hs, hl]
-        exact (hprev m (Nat.lt_succ_self m)).2.2 f args hlazy hargs fr rfr vars tail st hs hrel
+        exact (hprev m (Nat.lt_succ_self m)).2.2 f args hargs fr rfr vars tail st hs hrel
     | some v =>
       rw [hl] at hf
       obtain ⟨hcf, k, hk, hc⟩ := hf
@@ -190,8 +190,17 @@ theorem sim_eval (cfg : Core.Cfg) (n : Nat) (hn : Sim cfg n) (hprev : ∀ m, m <
           | clos f' d e => simp [closFree] at hcf
           | _ => simp [callVal, Core.callVal, ofCore, cr, Good, closFree]
 
+/-- the shapes `builtin` dispatches on -/
+structure NoSpecial {α : Type} (f : String) (args : List α) : Prop where
+  nif : ∀ c a b, f = "if" → args = [c, a, b] → False
+  nand : ∀ a b, f = "and" → args = [a, b] → False
+  nor : ∀ a b, f = "or" → args = [a, b] → False
+  niferr : ∀ a b, f = "if_error" → args = [a, b] → False
+  niserr : ∀ a, f = "is_error" → args = [a] → False
+  ndisp : ∀ a, f = "display" → args = [a] → False
+
 theorem core_builtin_default (n : Nat) (cfg : Core.Cfg) (fr : Core.Frame) (f : String) (args : List Core.Expr)
-    (tail : Bool) (st : St) (hl : lazyNatives.contains f = false) (hd : ∀ a, f = "display" → args = [a] → False) :
+    (tail : Bool) (st : St) (h : NoSpecial f args) :
     Core.builtin (n + 1) cfg fr f args tail st =
       (if Core.isStrictPrim f then
         match Core.evalList n cfg fr args st with
@@ -199,10 +208,13 @@ theorem core_builtin_default (n : Nat) (cfg : Core.Cfg) (fr : Core.Frame) (f : S
         | (.error r, st') => (r, st')
       else (.stuck ("unknown function " ++ f), st)) := by
   simp only [Core.builtin]
-  split <;> first | (simp [lazyNatives] at hl; done) | (exact absurd rfl (fun h => hd _ rfl h)) | rfl
+  split <;> first
+    | (exact absurd rfl (fun e => h.nif _ _ _ rfl e)) | (exact absurd rfl (fun e => h.nand _ _ rfl e))
+    | (exact absurd rfl (fun e => h.nor _ _ rfl e)) | (exact absurd rfl (fun e => h.niferr _ _ rfl e))
+    | (exact absurd rfl (fun e => h.niserr _ rfl e)) | (exact absurd rfl (fun e => h.ndisp _ rfl e)) | rfl
 
 theorem cell_builtin_default (n : Nat) (cfg : Core.Cfg) (fr : RFrame) (f : String) (args : List XE)
-    (tail : Bool) (st : St) (hl : lazyNatives.contains f = false) (hd : ∀ a, f = "display" → args = [a] → False) :
+    (tail : Bool) (st : St) (h : NoSpecial f args) :
     builtin (n + 1) cfg fr f args tail st =
       (if Core.isStrictPrim f then
         match evalList n cfg fr args st with
@@ -210,7 +222,10 @@ theorem cell_builtin_default (n : Nat) (cfg : Core.Cfg) (fr : RFrame) (f : Strin
         | (.error r, st') => (r, st')
       else (.stuck ("unknown function " ++ f), st)) := by
   simp only [builtin]
-  split <;> first | (simp [lazyNatives] at hl; done) | (exact absurd rfl (fun h => hd _ rfl h)) | rfl
+  split <;> first
+    | (exact absurd rfl (fun e => h.nif _ _ _ rfl e)) | (exact absurd rfl (fun e => h.nand _ _ rfl e))
+    | (exact absurd rfl (fun e => h.nor _ _ rfl e)) | (exact absurd rfl (fun e => h.niferr _ _ rfl e))
+    | (exact absurd rfl (fun e => h.niserr _ rfl e)) | (exact absurd rfl (fun e => h.ndisp _ rfl e)) | rfl
 
 theorem prim_shape (f : String) (args : List Core.Val) :
     (∃ v, Core.prim f args = .val v) ∨ (∃ w, Core.prim f args = .stuck w) := by
@@ -229,12 +244,133 @@ theorem cxs_length (vars : List (String × Nat)) (es : List Core.Expr) : (cxs va
   | nil => simp [cxs]
   | cons e rest ih => simp [cxs, ih]
 
+theorem cxs_eq1 (vars : List (String × Nat)) (args : List Core.Expr) (x : XE) (h : cxs vars args = [x]) :
+    ∃ a, args = [a] := by
+  match args, h with
+  | [a], _ => exact ⟨a, rfl⟩
+
+theorem cxs_eq2 (vars : List (String × Nat)) (args : List Core.Expr) (x y : XE) (h : cxs vars args = [x, y]) :
+    ∃ a b, args = [a, b] := by
+  match args, h with
+  | [a, b], _ => exact ⟨a, b, rfl⟩
+
+theorem cxs_eq3 (vars : List (String × Nat)) (args : List Core.Expr) (x y z : XE) (h : cxs vars args = [x, y, z]) :
+    ∃ a b c, args = [a, b, c] := by
+  match args, h with
+  | [a, b, c], _ => exact ⟨a, b, c, rfl⟩
+
 /-- the native step -/
 theorem sim_builtin (cfg : Core.Cfg) (n : Nat) (hn : Sim cfg n) :
-    ∀ f args, lazyNatives.contains f = false → exprsOK args = true → ∀ (fr : Core.Frame) rfr vars tail st, fr.self = none → FrRel fr.env vars rfr →
+    ∀ f args, exprsOK args = true → ∀ (fr : Core.Frame) rfr vars tail st, fr.self = none → FrRel fr.env vars rfr →
     builtin (n + 1) cfg rfr f (cxs vars args) tail st = (cr (Core.builtin (n + 1) cfg fr f args tail st).1, (Core.builtin (n + 1) cfg fr f args tail st).2) ∧
     Good (Core.builtin (n + 1) cfg fr f args tail st).1 := by
-  intro f args hl hargs fr rfr vars tail st hs hrel
+  intro f args hargs fr rfr vars tail st hs hrel
+  by_cases h1 : ∃ c a b, f = "if" ∧ args = [c, a, b]
+  · obtain ⟨c, a, b, rfl, rfl⟩ := h1
+    simp only [exprsOK, Bool.and_eq_true, Bool.and_true] at hargs
+    obtain ⟨hc, ha, hb⟩ := hargs
+    obtain ⟨he, hg⟩ := hn.1 c hc fr rfr vars false st hs hrel
+    simp only [cxs, builtin, Core.builtin, he]
+    cases hr : Core.eval n cfg fr c false st with
+    | mk r st1 =>
+      rw [hr] at hg
+      cases r with
+      | val v =>
+        cases v with
+        | bool t =>
+          rw [show cr (Core.Res.val (Core.Val.bool t)) = CRes.val (CVal.bool t) from by simp [cr, ofCore]]
+          cases t
+          · simp only [Bool.false_eq_true, if_false]; exact hn.1 b hb fr rfr vars tail st1 hs hrel
+          · simp only [if_true]; exact hn.1 a ha fr rfr vars tail st1 hs hrel
+        | clos f d e => simp [Good, closFree] at hg
+        | _ => simp [cr, ofCore, Good, closFree]
+      | viol k => simp [cr, Good]
+      | tail a => simp [Good] at hg
+      | stuck w => simp [cr, Good]
+      | oof => simp [cr, Good]
+  by_cases h2 : ∃ a b, f = "and" ∧ args = [a, b]
+  · obtain ⟨a, b, rfl, rfl⟩ := h2
+    simp only [exprsOK, Bool.and_eq_true, Bool.and_true] at hargs
+    obtain ⟨ha, hb⟩ := hargs
+    obtain ⟨he, hg⟩ := hn.1 a ha fr rfr vars false st hs hrel
+    simp only [cxs, builtin, Core.builtin, he]
+    cases hr : Core.eval n cfg fr a false st with
+    | mk r st1 =>
+      rw [hr] at hg
+      cases r with
+      | val v =>
+        cases v with
+        | bool t =>
+          rw [show cr (Core.Res.val (Core.Val.bool t)) = CRes.val (CVal.bool t) from by simp [cr, ofCore]]
+          cases t
+          · simp [cr, ofCore, Good, closFree]
+          · exact hn.1 b hb fr rfr vars tail st1 hs hrel
+        | clos f d e => simp [Good, closFree] at hg
+        | _ => simp [cr, ofCore, Good, closFree]
+      | viol k => simp [cr, Good]
+      | tail a => simp [Good] at hg
+      | stuck w => simp [cr, Good]
+      | oof => simp [cr, Good]
+  by_cases h3 : ∃ a b, f = "or" ∧ args = [a, b]
+  · obtain ⟨a, b, rfl, rfl⟩ := h3
+    simp only [exprsOK, Bool.and_eq_true, Bool.and_true] at hargs
+    obtain ⟨ha, hb⟩ := hargs
+    obtain ⟨he, hg⟩ := hn.1 a ha fr rfr vars false st hs hrel
+    simp only [cxs, builtin, Core.builtin, he]
+    cases hr : Core.eval n cfg fr a false st with
+    | mk r st1 =>
+      rw [hr] at hg
+      cases r with
+      | val v =>
+        cases v with
+        | bool t =>
+          rw [show cr (Core.Res.val (Core.Val.bool t)) = CRes.val (CVal.bool t) from by simp [cr, ofCore]]
+          cases t
+          · exact hn.1 b hb fr rfr vars tail st1 hs hrel
+          · simp [cr, ofCore, Good, closFree]
+        | clos f d e => simp [Good, closFree] at hg
+        | _ => simp [cr, ofCore, Good, closFree]
+      | viol k => simp [cr, Good]
+      | tail a => simp [Good] at hg
+      | stuck w => simp [cr, Good]
+      | oof => simp [cr, Good]
+  by_cases h4 : ∃ a b, f = "if_error" ∧ args = [a, b]
+  · obtain ⟨a, b, rfl, rfl⟩ := h4
+    simp only [exprsOK, Bool.and_eq_true, Bool.and_true] at hargs
+    obtain ⟨ha, hb⟩ := hargs
+    obtain ⟨he, hg⟩ := hn.1 a ha fr rfr vars false st hs hrel
+    simp only [cxs, builtin, Core.builtin, he]
+    cases hr : Core.eval n cfg fr a false st with
+    | mk r st1 =>
+      rw [hr] at hg
+      cases r with
+      | val v =>
+        cases v with
+        | err m =>
+          rw [show cr (Core.Res.val (Core.Val.err m)) = CRes.val (CVal.err m) from by simp [cr, ofCore]]
+          exact hn.1 b hb fr rfr vars tail st1 hs hrel
+        | clos f d e => simp [Good, closFree] at hg
+        | _ => simp only [Good] at hg; simp [cr, ofCore, Good, hg]
+      | viol k => simp [cr, Good]
+      | tail a => simp [Good] at hg
+      | stuck w => simp [cr, Good]
+      | oof => simp [cr, Good]
+  by_cases h5 : ∃ a, f = "is_error" ∧ args = [a]
+  · obtain ⟨a, rfl, rfl⟩ := h5
+    simp only [exprsOK, Bool.and_true] at hargs
+    obtain ⟨he, hg⟩ := hn.1 a hargs fr rfr vars false st hs hrel
+    simp only [cxs, builtin, Core.builtin, he]
+    cases hr : Core.eval n cfg fr a false st with
+    | mk r st1 =>
+      rw [hr] at hg
+      cases r with
+      | val v =>
+        simp only [Good] at hg
+        simp [cr, ofCore, Good, closFree, ofCore_isErr v hg]
+      | viol k => simp [cr, Good]
+      | tail a => simp [Good] at hg
+      | stuck w => simp [cr, Good]
+      | oof => simp [cr, Good]
   by_cases hd : ∃ a, f = "display" ∧ args = [a]
   · obtain ⟨a, rfl, rfl⟩ := hd
     simp only [exprsOK, Bool.and_true] at hargs
@@ -259,13 +395,18 @@ theorem sim_builtin (cfg : Core.Cfg) (n : Nat) (hn : Sim cfg n) :
       | tail a => simp [Good] at hg
       | stuck w => simp [cr, Good]
       | oof => simp [cr, Good]
-  · have hd1 : ∀ a, f = "display" → args = [a] → False := fun a h1 h2 => hd ⟨a, h1, h2⟩
-    have hd2 : ∀ a, f = "display" → cxs vars args = [a] → False := by
-      intro a h1 h2
-      have hlen : args.length = 1 := by rw [← cxs_length vars args, h2]; rfl
-      match args, hlen with
-      | [a'], _ => exact hd ⟨a', h1, rfl⟩
-    rw [core_builtin_default n cfg fr f args tail st hl hd1, cell_builtin_default n cfg rfr f _ tail st hl hd2]
+  · have ns1 : NoSpecial f args :=
+      ⟨fun c a b e1 e2 => h1 ⟨c, a, b, e1, e2⟩, fun a b e1 e2 => h2 ⟨a, b, e1, e2⟩, fun a b e1 e2 => h3 ⟨a, b, e1, e2⟩,
+       fun a b e1 e2 => h4 ⟨a, b, e1, e2⟩, fun a e1 e2 => h5 ⟨a, e1, e2⟩, fun a e1 e2 => hd ⟨a, e1, e2⟩⟩
+    have ns2 : NoSpecial f (cxs vars args) := by
+      refine ⟨?_, ?_, ?_, ?_, ?_, ?_⟩
+      · intro x y z e1 e2; obtain ⟨a, b, c, e⟩ := cxs_eq3 vars args x y z e2; exact ns1.nif a b c e1 e
+      · intro x y e1 e2; obtain ⟨a, b, e⟩ := cxs_eq2 vars args x y e2; exact ns1.nand a b e1 e
+      · intro x y e1 e2; obtain ⟨a, b, e⟩ := cxs_eq2 vars args x y e2; exact ns1.nor a b e1 e
+      · intro x y e1 e2; obtain ⟨a, b, e⟩ := cxs_eq2 vars args x y e2; exact ns1.niferr a b e1 e
+      · intro x e1 e2; obtain ⟨a, e⟩ := cxs_eq1 vars args x e2; exact ns1.niserr a e1 e
+      · intro x e1 e2; obtain ⟨a, e⟩ := cxs_eq1 vars args x e2; exact ns1.ndisp a e1 e
+    rw [core_builtin_default n cfg fr f args tail st ns1, cell_builtin_default n cfg rfr f _ tail st ns2]
     by_cases hp : Core.isStrictPrim f = true
     · simp only [hp, if_true]
       obtain ⟨hel, hgl⟩ := hn.2.1 args hargs fr rfr vars st hs hrel
